@@ -5,6 +5,7 @@ import (
 	"fmt"
 	"os"
 	"path/filepath"
+	"strings"
 	"testing"
 
 	"github.com/fiorix/go-diameter/v4/diam/dict"
@@ -309,6 +310,72 @@ func runSet(c SetCase) *ev.Failure {
 				}
 			}
 		}
+		// the same files handed to NewParser in one call: "loads them in order", so the parser
+		// answers like the one loaded step by step. The file that comes first is the slowest to
+		// parse (a long comment), as a big vendor dictionary followed by a small override is.
+		if c.ViaFile && !refused && !c.Reload && len(order) > 1 {
+			var paths []string
+			for step, fi := range order {
+				path := filepath.Join(dir, fmt.Sprintf("np-%d-doc%d.xml", step, fi))
+				body := docs[fi]
+				if step == 0 {
+					if k := strings.LastIndex(body, "</diameter>"); k >= 0 {
+						body = body[:k] + "<!-- " + strings.Repeat("padding ", 40000) + "-->\n" + body[k:]
+					}
+				}
+				if err := os.WriteFile(path, []byte(body), 0o644); err != nil {
+					return ev.Failf("harness-tempdir", "%v", err)
+				}
+				paths = append(paths, path)
+			}
+			np, err := dict.NewParser(paths...)
+			if err != nil {
+				return ev.Failf("load:valid-document-refused", "order %v: NewParser(%d files) returned %v for documents that Load accepted one by one", order, len(paths), err)
+			}
+			for _, q := range qs {
+				if f := checkLookup(np, m, q); f != nil {
+					f.Sig = "newparser:" + f.Sig
+					f.Detail = fmt.Sprintf("order %v, all files given to ONE NewParser call (which loads them in argument order): ", order) + f.Detail
+					return f
+				}
+			}
+		}
+	}
+	// Two dictionaries side by side in one process (a server with a dictionary per listener):
+	// one holds the whole set, the other only its first document. Both are loaded completely
+	// BEFORE anything is looked up; then the grid is asked of the first, of the second, and of
+	// the first again. Each parser answers from its own documents only.
+	if len(docs) > 1 {
+		full, part := refdict.New(), refdict.New()
+		pFull, err1 := dict.NewParser()
+		pPart, err2 := dict.NewParser()
+		if err1 != nil || err2 != nil {
+			return ev.Failf("harness-parser", "%v %v", err1, err2)
+		}
+		ok := true
+		for _, d := range docs {
+			if len(full.Load(d)) > 0 || pFull.Load(bytes.NewReader([]byte(d))) != nil {
+				ok = false
+			}
+		}
+		if len(part.Load(docs[0])) > 0 || pPart.Load(bytes.NewReader([]byte(docs[0]))) != nil {
+			ok = false
+		}
+		if ok {
+			for round, pm := range []struct {
+				p *dict.Parser
+				m *refdict.Model
+				n string
+			}{{pFull, full, "the parser holding all documents"}, {pPart, part, "the parser holding only the first document"}, {pFull, full, "the parser holding all documents (asked again)"}} {
+				for _, q := range qs {
+					if f := checkLookup(pm.p, pm.m, q); f != nil {
+						f.Sig = "two-parsers:" + f.Sig
+						f.Detail = fmt.Sprintf("two parsers in one process, both loaded before any lookup; round %d, %s: ", round, pm.n) + f.Detail
+						return f
+					}
+				}
+			}
+		}
 	}
 	return nil
 }
@@ -399,7 +466,7 @@ func setFeatures(c SetCase) (nontrivial bool, classes []string) {
 var setProp = ev.Register(&ev.Prop[SetCase]{
 	ID:   "C17",
 	Name: "sets",
-	Rule: "(1 in 3 through files and Parser.LoadFile; 1 in 3 with the first document loaded once more at the end, under another spelling of its path) generated sets of 1..3 XML documents over small pools of application ids (0, 1, 4, 16777238, 16777251, 7, 1000), codes, names, vendors and command codes, some with an undeclarable type name or a command defined twice; each set is loaded in EVERY order into fresh parsers; after each Load the full lookup grid of the set (as in the embedded test) is compared with the model and every query that resolved before must still resolve (also across refused Loads); non-trivial = the set redefines an (application, code, vendor) across documents, or defines a code for >= 2 vendors at one level, or at >= 2 levels of a parent chain; distinct by hash of the documents + drawn order",
+	Rule: "(1 in 3 through files and Parser.LoadFile, and then once more through ONE NewParser(files...) call whose first file is the slowest to parse; 1 in 3 with the first document loaded once more at the end, under another spelling of its path) generated sets of 1..3 XML documents over small pools of application ids (0, 1, 4, 16777238, 16777251, 7, 1000), codes, names, vendors and command codes, some with an undeclarable type name or a command defined twice; each set is loaded in EVERY order into fresh parsers; after each Load the full lookup grid of the set (as in the embedded test) is compared with the model and every query that resolved before must still resolve (also across refused Loads); non-trivial = the set redefines an (application, code, vendor) across documents, or defines a code for >= 2 vendors at one level, or at >= 2 levels of a parent chain; distinct by hash of the documents + drawn order",
 	Gen:  genSet,
 	Run:  runSet,
 	Classify: func(c SetCase) (bool, []string) {
